@@ -65,7 +65,7 @@ class FlowDo(PyDo):
     """adds: values of the analysis domain (type 'dval'), block / instruction views, `for` loops, `continue`"""
     def lean_type(self, t):
         m = {'dval': 'D', 'blk': 'Tealer.PyView.PyBlock', 'bid': 'Nat', 'bidlist': 'List Nat', 'ins': 'Tealer.PyView.PyIns', 'inslist': 'List Tealer.PyView.PyIns',
-             'dmap': 'Nat → D', 'dom': 'Tealer.Domain D', 'ga': 'Tealer.PySV → D × D', 'pcmap': 'List (Nat × D)'}
+             'dmap': 'Nat → D', 'dom': 'Tealer.Domain D', 'ga': 'Tealer.PySV → D × D', 'pcmap': 'Nat → Option D'}
         if isinstance(t, str) and t in m: return m[t]
         return super().lean_type(t)
 
@@ -266,8 +266,8 @@ def gen_flow():
     try:
         out.extend(translate(cls._path_level_constraints, 'pathLevelConstraints',
                              [(None, 'E', 'env'), DOM, UNIV, (None, 'getAsserted', 'ga'), SELF, ('analysis_keys', 'key', 'key'), BLOCK], 'pcmap',
-                             'translated from DataflowTransactionContext._path_level_constraints for one key: the entries self._path_contexts[key][b][block] it writes, as an association list (a later write to the same successor replaces the earlier one); `getAsserted v` = self._get_asserted(key, v)',
-                             bl, final_value='pc', prelude=["  let mut pc : List (Nat × D) := []"]))
+                             'translated from DataflowTransactionContext._path_level_constraints for one key: the entries self._path_contexts[key][b][block] it writes, as a partial function of the successor (a later write to the same successor replaces the earlier one); `getAsserted v` = self._get_asserted(key, v)',
+                             bl, final_value='pc', prelude=["  let mut pc : Nat → Option D := fun _ => none"]))
     except Untranslatable as e:
         errors.append(f"_path_level_constraints: {e}")
         out.extend([f"-- _path_level_constraints could not be translated: {e}", ""])
